@@ -542,6 +542,8 @@ def relation_of(g):
         return int(q.const()), info["args"][0]
     if f == "I":
         return 2, rf_const(-1)
+    if f == "sign":
+        return 2, rf_const(1)
     return None
 
 
@@ -746,6 +748,10 @@ def to_rf(x, ctx: NFContext | None = None):
 
     def go_app(n, f, argn):
         args = [go(a) for a in argn]
+        if any(_has_sign(x) for x in args):
+            # f(arg(sigma)) = (1+sigma)/2 f(arg(+1)) + (1-sigma)/2 f(arg(-1))   for sigma^2 = 1
+            ctx.laws_used.add("f(u(sigma)) = (1+sigma)/2 f(u(1)) + (1-sigma)/2 f(u(-1)) for a sign sigma (sigma^2 = 1)")
+            return _split_sign(f, args, ctx)
         if f == "ln":
             return ln_rf(args[0], ctx)
         if f == "exp":
@@ -771,6 +777,7 @@ def to_rf(x, ctx: NFContext | None = None):
                 if r is not None:
                     return rf_const(r)
             ctx.laws_used.add("sqrt(t)^2 = t")
+            return sqrt_rf(a, ctx)
         if f == "root":
             ctx.laws_used.add("root(t,q)^q = t")
         if f == "I":
@@ -778,6 +785,188 @@ def to_rf(x, ctx: NFContext | None = None):
         return RF(p_gen(atom_gen(f, tuple(args))))
 
     return go(x.n)
+
+
+def _sign_gens(r):
+    out = set()
+    for p in [r.num] + [f for f, _ in r.den.values()]:
+        for g in p_gens(p):
+            info = GENS[g]
+            if info["kind"] == "atom" and info["f"] == "sign":
+                out.add(g)
+    return out
+
+
+def _has_sign(r):
+    return bool(_sign_gens(r))
+
+
+def p_subst_gen(p, g, val):
+    """substitute generator g := rational constant val in polynomial p"""
+    out = {}
+    for m, c in p.items():
+        e = 0
+        rest = []
+        for gg, x in m:
+            if gg == g:
+                e = x
+            else:
+                rest.append((gg, x))
+        c2 = c * (Q(val) ** e)
+        if not c2:
+            continue
+        k = tuple(rest)
+        v = out.get(k, 0) + c2
+        if v:
+            out[k] = v
+        else:
+            out.pop(k, None)
+    return out
+
+
+def rf_subst_gen(r, g, val):
+    num = p_subst_gen(r.num, g, val)
+    acc = RF(num)
+    for f, e in r.den.values():
+        f2 = p_subst_gen(f, g, val)
+        if not f2:
+            raise ZeroDivisionError("sign substitution makes a denominator vanish")
+        acc = rf_mul(acc, rf_pow(rf_inv(RF(f2)), e))
+    return acc
+
+
+def _split_sign(f, args, ctx):
+    g = sorted(set().union(*[_sign_gens(a) for a in args]))[0]
+    res = RF({})
+    for val, weight in ((1, RF(p_add(p_const(Q(1, 2)), p_scale(p_gen(g), Q(1, 2))))), (-1, RF(p_sub(p_const(Q(1, 2)), p_scale(p_gen(g), Q(1, 2)))))):
+        a2 = [rf_subst_gen(a, g, val) for a in args]
+        if any(_has_sign(x) for x in a2):
+            inner = _split_sign(f, a2, ctx)
+        else:
+            inner = _app_rf(f, a2, ctx)
+        res = rf_add(res, rf_mul(weight, inner))
+    return res
+
+
+def _app_rf(f, args, ctx):
+    """RF of f(args) for already-normalised arguments (no sign generators inside)."""
+    if f == "ln":
+        return ln_rf(args[0], ctx)
+    if f == "exp":
+        if args[0].is_zero():
+            return rf_const(1)
+        return RF(p_gen(atom_gen("exp", (args[0],))))
+    if f == "sqrt":
+        return sqrt_rf(args[0], ctx)
+    if f == "atan" and args[0].is_zero():
+        return RF({})
+    return RF(p_gen(atom_gen(f, tuple(args))))
+
+
+def _to_sympy(p, gens):
+    import sympy
+
+    syms = {g: sympy.Symbol(f"g{g}") for g in gens}
+    expr = 0
+    for m, c in p.items():
+        t = sympy.Rational(c.numerator, c.denominator)
+        for g, e in m:
+            t *= syms[g] ** e
+        expr += t
+    return expr, syms
+
+
+def _from_sympy(expr, syms):
+    import sympy
+
+    inv = {v: k for k, v in syms.items()}
+    if not syms:
+        c = sympy.Rational(expr)
+        return p_const(Q(int(c.p), int(c.q)))
+    poly = sympy.Poly(expr, *syms.values())
+    out = {}
+    glist = [inv[s_] for s_ in poly.gens]
+    for mono, c in poly.terms():
+        m = tuple(sorted((g, int(e)) for g, e in zip(glist, mono) if e))
+        out[m] = Q(int(c.p), int(c.q))
+    return out
+
+
+_sqf_cache = {}
+
+
+def p_sqf(p):
+    """square-free decomposition: p = c * prod f_i^e_i ; returns (c, [(poly, e)])"""
+    import sympy
+
+    key = p_key(p)
+    r = _sqf_cache.get(key)
+    if r is not None:
+        return r
+    gens = sorted(p_gens(p))
+    if not gens:
+        r = (p.get((), Q(0)), [])
+    else:
+        expr, syms = _to_sympy(p, gens)
+        c, facs = sympy.sqf_list(expr, *syms.values())
+        c = sympy.Rational(c)
+        r = (Q(int(c.p), int(c.q)), [(_from_sympy(f, syms), int(e)) for f, e in facs])
+    _sqf_cache[key] = r
+    return r
+
+
+def sqrt_rf(a, ctx):
+    """sqrt of a rational function: perfect-square factors are pulled out with a sign atom
+    (sqrt(t^2 u) = sigma t sqrt(u), sigma^2 = 1, valid for every complex t, u)."""
+    if a.is_zero():
+        return RF({})
+    # sqrt(n/D) = sigma sqrt(n D)/D ; with D = prod d_i^e_i :  n D = n prod d_i^e_i
+    facs = []  # (poly, exponent) of the radicand numerator n * D
+    c, sq = p_sqf(a.num)
+    for f, e in sq:
+        facs.append((f, e))
+    for f, e in a.den.values():
+        facs.append((f, e))
+    outside = RF(p_const(1))
+    inside = p_const(1)
+    pulled = False
+    merged = {}
+    for f, e in facs:
+        cc, mono, prim = p_split(f)
+        c = c * cc ** e
+        for g, ge in mono:
+            k = p_key(p_gen(g))
+            merged[k] = (p_gen(g), merged.get(k, (None, 0))[1] + ge * e)
+        if list(prim.keys()) != [()]:
+            k = p_key(prim)
+            merged[k] = (prim, merged.get(k, (None, 0))[1] + e)
+        else:
+            c = c * prim[()] ** e
+    for k, (f, e) in merged.items():
+        if e // 2:
+            outside = rf_mul(outside, RF(p_pow(f, e // 2)))
+            pulled = True
+        if e % 2:
+            inside = p_mul(inside, f)
+    # rational constant: pull exact square part
+    cr = None
+    if c > 0:
+        cr = T.exact_root(c, Q(1, 2))
+    if cr is not None:
+        outside = rf_mul(outside, rf_const(cr))
+    else:
+        inside = p_scale(inside, c)
+    den = RF(p_const(1))
+    for f, e in a.den.values():
+        den = rf_mul(den, RF(p_pow(f, e)))
+    res = rf_mul(outside, rf_inv(den))
+    if list(inside.keys()) != [()] or inside[()] != 1:
+        res = rf_mul(res, RF(p_gen(atom_gen("sqrt", (RF(inside),)))))
+    if pulled or a.den:
+        ctx.laws_used.add("sqrt(t^2 u) = sigma t sqrt(u) with a sign atom sigma^2 = 1 (both signs covered)")
+        sg = atom_gen("sign", (a,))
+        res = rf_mul(res, RF(p_gen(sg)))
+    return res
 
 
 def ln_rf(a, ctx):
